@@ -16,7 +16,7 @@ def main():
     hs = heaps(ctx, thorough)
     if thorough:
         hs = hs[ctx.seed % 4::4]
-    cases = [dict(h, mode="c05") for h in hs]
+    cases = [dict(h, mode="c05", falsy=(i % 5 == 4)) for i, h in enumerate(hs)]      # every fifth heap consists of falsy objects
     results = replay("objgraph", cases, timeout=5000)
     ctx.replayed = len(cases)
     for h, r in zip(hs, results):
